@@ -301,7 +301,7 @@ def runCase (s : GState) : String :=
     | some set => if s.isT && s.toks.length ≤ s.exh then some (set.contains wNoExtra) else none
     | none => none
   let deriv : Option Bool := match vt with
-    | some v => some (checkDerivation s.g v)
+    | some v => some (checkDerivationM s.g v)
     | none => none
   let prattMsg : Option String :=
     match s.optable, s.isT with
